@@ -526,6 +526,17 @@ class Program:
             self.by_id[f.id].append(f)
         self._cg = None
         self._closures_of = None
+        # private helpers that did not exist when the rules were written (extract-function refactorings): their refusals
+        # are attributed to the caller (guards.FnGuards._virtual_edges).  Baseline = function ids of the reviewed tree.
+        self.unknown_helpers = []
+        bp = os.path.join(os.path.dirname(os.path.dirname(os.path.abspath(__file__))), "baseline_fns.json")
+        if os.path.exists(bp):
+            try:
+                known = set(json.load(open(bp)))
+                self.unknown_helpers = [f for f in self.fns if f.id not in known and f.kind != "Closure" and not f.eff_pub
+                                        and f.impl_trait is None and f._mirj is not None]
+            except (ValueError, OSError):
+                pass
 
     # ---- type helpers
     def ty(self, i):
